@@ -403,6 +403,20 @@ func (w *Worktree) resetRefusals(opts *ResetOptions) error {
 		return err
 	}
 
+	if opts.Mode == MergeReset {
+		prevTree := opts.fromTree
+		if prevTree == nil {
+			prevTree, err = w.headTree()
+			if err != nil {
+				return err
+			}
+		}
+
+		if err := w.checkUntrackedOverwrite(prevTree, t, opts.Files); err != nil {
+			return err
+		}
+	}
+
 	if len(opts.SparseDirs) > 0 && !opts.SkipSparseDirValidation {
 		if !treeContainsDirs(t, opts.SparseDirs) {
 			return ErrSparseResetDirectoryNotFound
@@ -747,6 +761,46 @@ func (w *Worktree) checkKeepResetConflicts(fromTree, toTree *object.Tree, sparse
 			if _, willWrite := writtenPaths[path]; willWrite {
 				return fmt.Errorf("%w: %s", ErrLocalChanges, path)
 			}
+		}
+	}
+	return nil
+}
+
+// checkUntrackedOverwrite refuses a non-forced switch from fromTree to toTree
+// when an untracked file sits at a path the switch writes: like git, which
+// reports that untracked working tree files would be overwritten.
+func (w *Worktree) checkUntrackedOverwrite(fromTree, toTree *object.Tree, files []string) error {
+	changes, err := diffTrees(fromTree, toTree)
+	if err != nil {
+		return err
+	}
+
+	filesMap := buildFilePathMap(files)
+	written := make(map[string]struct{})
+	for _, ch := range changes {
+		if ch.To == nil {
+			continue
+		}
+		name := ch.To.String()
+		if len(files) > 0 && !inFiles(filesMap, name) {
+			continue
+		}
+		written[name] = struct{}{}
+	}
+	if len(written) == 0 {
+		return nil
+	}
+
+	status, err := w.Status()
+	if err != nil {
+		return err
+	}
+	for path, st := range status {
+		if st.Staging != Untracked || st.Worktree != Untracked {
+			continue
+		}
+		if _, willWrite := written[path]; willWrite {
+			return fmt.Errorf("%w: %s", ErrLocalChanges, path)
 		}
 	}
 	return nil
